@@ -55,7 +55,12 @@ Checks(x) ==
   [n |-> "C05_Det_Crds",     v |-> render => o.dCrds <= 1],
   [n |-> "C05_CrdBodySame",  v |-> render => o.crdBodySame],
   (* ---- C05: the observed output is the specification's -------------------------------- *)
-  [n |-> "C05_Eq_Err",       v |-> render => o.err = r.err],
+  [n |-> "C05_Eq_Err",       v |-> render => (o.err = r.err /\ (o.err \in {"parse", "exec"} => o.errAt = r.errAt))],
+  [n |-> "C05_Det_ErrText",  v |-> render => o.dErrText <= 1],
+  \* renders that REUSE one loaded chart object (sequentially, concurrently) equal the first render of a fresh one
+  [n |-> "C05_Reuse_Same",   v |-> render => o.reuseSame],
+  \* a render through the cluster-connected route (RESTClientGetter set, --dry-run=server) equals the client-only one
+  [n |-> "C05_Route_Same",   v |-> render => o.routeSame],
   [n |-> "C05_Eq_Manifest",  v |-> (render /\ ok) => SameDocs(ManProj(o.manifest), NoComments(c, r.manifest))],
   [n |-> "C05_Eq_Hooks",     v |-> (render /\ ok) => SameDocs(HookProj(o.hooks), r.hooks)],
   \* (where several NOTES.txt are joined, any FIXED order satisfies the property: which one is C05_Det_Notes' business)
@@ -82,9 +87,7 @@ Checks(x) ==
 \* model is not a function of its input, and what was seen is within what the model can produce
 Known(n, x) ==
   LET c == x.case  o == x.obs IN
-  CASE n = "C05_Det_Notes" -> [k |-> KnownNotesShape(c) /\ Range(o.notesSeen) \subseteq PossibleNotes(c), kf |-> "KF-L8-notes-map-order"]
-    [] n = "C05_Det_Crds"  -> [k |-> KnownCrdsShape(c) /\ Range(o.crdsSeen) \subseteq PossibleCrds(c), kf |-> "KF-L21-crd-order"]
-    [] n = "C05_Schema_Isolated" ->
+  CASE n = "C05_Schema_Isolated" ->
          [k |-> KnownSchemaShape(c) /\ Range(o.schema) \subseteq {"accept", "reject", "error"}, kf |-> "KF-L8-schema-ref-reads-host-files"]
     [] OTHER -> [k |-> FALSE, kf |-> ""]
 
